@@ -19,7 +19,7 @@ Extraction "model.ml"
   (* C15 *) ts_init ts_next ts_run
   (* engine *) run single match_exists naive
   (* certificates *) wf_check compute_rank lab_ok compute_lab cert_complete char_entails char_refutes
-     atoms_self s_goodb m_goodb
+     atoms_self s_goodb m_goodb s_keys_tight
   (* trees *) with_children with_pairwise_mutex with_transitive_mutex with_powerset char_tree pg_tree
      pg_conditioned_res pgc_eqb mkey_cmp
   (* specification *) occ_stringb occ_matrixb all_cells_from
